@@ -142,11 +142,6 @@ theorem stream2bytearray_noFuel (data : Bytes) : stream2bytearray data ≠ .erro
 
 /-! ## `stream2bytearray` only reads -/
 
-def fstOf (x : Except Err (α × Bytes)) : Except Err α :=
-  match x with
-  | .ok y => .ok y.1
-  | .error e => .error e
-
 theorem runBR_read (n : Nat) (k : Bytes → Dec α) (d : Bytes) :
     (Dec.read n k).runBR d = if n ≤ d.length then (k (d.take n)).runBR (d.drop n) else .error .eof := by
   by_cases h : n ≤ d.length
